@@ -126,6 +126,16 @@
   (ite ((_ is TAListT) t) (ite ((_ is tanil) (taitems t)) CENil (CEMakeList (cexprl (taitems t))))
        (CEPair (cexpr (tahead t)) (cexpr (tatail t))))))))
   (ite ((_ is tanil) l) cenil (cecons (cexpr (tahd l)) (cexprl (tatl l))))))
+; bracket accounting of the emitted expression: (fits t b) = the constructor calls emitted for t, written inside b open brackets, never
+; nest deeper than 182 brackets: atom( opens 1, functor( [ and makelist([ open 2 around their arguments, listpair( opens 1 around both
+; of its arguments (head AND tail), variables / numerals / ATOM_NIL open none
+(define-funs-rec ((fits ((t TA) (b Int)) Bool) (fitsl ((l TAL) (b Int)) Bool))
+ ((ite ((_ is TAAtom) t) (<= (+ b 1) 182)
+  (ite ((_ is TAFun) t) (and (<= (+ b 2) 182) (fitsl (tafargs t) (+ b 2)))
+  (ite ((_ is TAListT) t) (ite ((_ is tanil) (taitems t)) (<= b 182) (and (<= (+ b 2) 182) (fitsl (taitems t) (+ b 2))))
+  (ite ((_ is TAPair) t) (and (<= (+ b 1) 182) (fits (tahead t) (+ b 1)) (fits (tatail t) (+ b 1)))
+       (<= b 182)))))
+  (ite ((_ is tanil) l) true (and (fits (tahd l) b) (fitsl (tatl l) b)))))
 ; number of positions j < k whose argument is the plain variable n
 (define-fun-rec cnt ((a TAL) (n String) (k Int)) Int
   (ite (<= k 0) 0 (+ (cnt a n (- k 1)) (ite (= (tanth a (- k 1)) (TAVar n)) 1 0))))
